@@ -135,6 +135,43 @@ func runDump(path string) {
 				}
 				dumpDocs(c2, "i")
 				c2.Close()
+			case "ctor":
+				// embedded constructor with arbitrary options: created? and can it store one document of its dimension?
+				d, q, m := int(int64(u(f[1]))), int(int64(u(f[2]))), int(u(f[3]))
+				if strings.HasPrefix(f[1], "-") {
+					v, _ := strconv.Atoi(f[1])
+					d = v
+				}
+				if strings.HasPrefix(f[2], "-") {
+					v, _ := strconv.Atoi(f[2])
+					q = v
+				}
+				pc := path + ".c"
+				os.Remove(pc)
+				created, usable := 0, 0
+				func() {
+					defer func() {
+						if e := recover(); e != nil {
+							usable = 2
+						}
+					}()
+					cc, err := syz.NewCollection(syz.CollectionOptions{Name: pc, DistanceMethod: m, DimensionCount: d, Quantization: q, FileMode: syz.CreateAndOverwrite})
+					if err != nil {
+						return
+					}
+					created = 1
+					n := d
+					if n < 0 {
+						n = 0
+					}
+					cc.AddDocument(1, make([]float64, n), []byte("{}"))
+					if doc, err := cc.GetDocument(1); err == nil && len(doc.Vector) == d && d >= 1 {
+						usable = 1
+					}
+					cc.Close()
+				}()
+				os.Remove(pc)
+				fmt.Fprintf(out, "ctor %d %d\n", created, usable)
 			case "encmeta":
 				md := mh(f[1])
 				// what ExportJSON feeds its indenter: the standard encoder's output for the decoded value
